@@ -146,6 +146,18 @@ def run(ctx):
                 j = pipeline.Job("p%d-l%d" % (i, k), cfg, p, lang, {"prog": i, "opts": opts, "text": txt})
                 jobs.append(j)
                 lays.append(j)
+            # metamorphic twin: own-line comments put into arbitrary gaps between the lines (also between a body and its `else`, between a
+            # head and its brace-less body): comment lines are not statements, the columns of the code lines must not move
+            clines = []
+            for ln in lines:
+                if ln[2] not in ("pp",) and not (clines and clines[-1][2] == "pp") and rng.random() < 0.18:
+                    clines.append((ln[0], [rng.choice(["// own-line", "/* own-line */", "/* a\n * b */"])], "cmt"))
+                clines.append(ln)
+            lay = {"indent": rng.choice(["random", "clean"]), "gaps": "one", "trailing": 0, "blanklines": 0}
+            txt = gen.render(clines, rng, lay)
+            j = pipeline.Job("p%d-cmt" % i, cfg, sc.write(txt, ext), lang, {"prog": i, "opts": opts, "text": txt, "cmt_twin": True})
+            jobs.append(j)
+            lays.append(j)
             progs.append((lines, tk, idx, opts, lays, lang))
         ctx.log("runs:", len(jobs))
         pipeline.run_jobs(exe, jobs, hooks=False)
@@ -194,8 +206,10 @@ def run(ctx):
             for c, j in zip(cols_per_layout, lays):
                 if c is not None and c != ok[0]:
                     k = next(i for i in range(len(c)) if c[i] != ok[0][i])
-                    if ctx.violation("the original layout influences where a statement line is placed: code line %d gets column %d or %d "
-                                     "depending on the input's whitespace only" % (k, ok[0][k], c[k]),
+                    if ctx.violation(("own-line comments between the lines influence where a statement line is placed: code line %d gets column %d "
+                                      "without them and %d with them" if j.meta.get("cmt_twin") else
+                                      "the original layout influences where a statement line is placed: code line %d gets column %d or %d "
+                                      "depending on the input's whitespace only") % (k, ok[0][k], c[k]),
                                      {"input_a": lays[0].meta["text"], "input_b": j.meta["text"], "options": opts, "lang": lang},
                                      key=None, found_input=True):
                         bad_m += 1
